@@ -98,6 +98,8 @@ def descriptors() -> dict[str, NodeV]:
     d["DELETE"] = node("Delete", "stmt", this=table("T"))
     d["CREATE TABLE"] = node("Create", "stmt", kind=Const("TABLE"),
                              this=node("Schema", this=table("T"), expressions=Lst([coldef("A", "BIGINT")])))
+    d["CREATE TABLE IF NOT EXISTS"] = node("Create", "stmt", kind=Const("TABLE"), exists=Const(True),
+                                           this=node("Schema", this=table("T"), expressions=Lst([coldef("A", "BIGINT")])))
     d["CREATE TABLE varchar+comment"] = node(
         "Create", "stmt", kind=Const("TABLE"),
         this=node("Schema", this=table("T"), expressions=Lst([coldef("A", "VARCHAR", 10)])),
@@ -121,12 +123,19 @@ def descriptors() -> dict[str, NodeV]:
     d["DROP VIEW"] = node("Drop", "stmt", kind=Const("VIEW"), this=table("V"))
     d["DROP SCHEMA"] = node("Drop", "stmt", kind=Const("SCHEMA"), this=table(None, "S"))
     d["DROP DATABASE"] = node("Drop", "stmt", kind=Const("DATABASE"), this=table("D"))
+    # objects of another kind that merely share their name with the current schema / database
+    d["DROP TABLE named like the current schema"] = node("Drop", "stmt", kind=Const("TABLE"), this=table("CUR_SCHEMA"))
+    d["DROP VIEW named like the current database"] = node("Drop", "stmt", kind=Const("VIEW"), this=table("CUR_DB"))
+    d["DROP SCHEMA named like the current database"] = node("Drop", "stmt", kind=Const("SCHEMA"), this=table(None, "CUR_DB"))
+    d["DROP SCHEMA of the same name in another database"] = node("Drop", "stmt", kind=Const("SCHEMA"), this=table(None, "CUR_SCHEMA", "D2"))
     d["DROP SCHEMA current"] = node("Drop", "stmt", kind=Const("SCHEMA"), this=table(None, "CUR_SCHEMA"))
     d["DROP DATABASE current"] = node("Drop", "stmt", kind=Const("DATABASE"), this=table("CUR_DB"))
     d["ALTER TABLE ADD COLUMN"] = node("Alter", "stmt", kind=Const("TABLE"), this=table("T"),
                                        actions=Lst([coldef("B", "VARCHAR", 20)]))
     d["ALTER TABLE RENAME"] = node("Alter", "stmt", kind=Const("TABLE"), this=table("T"),
                                    actions=Lst([node("RenameTable", this=table("T9"))]))
+    d["ALTER VIEW RENAME"] = node("Alter", "stmt", kind=Const("VIEW"), this=table("V"),
+                                  actions=Lst([node("RenameTable", this=table("V9"))]))
     d["ALTER TABLE SET COMMENT"] = node(
         "Alter", "stmt", kind=Const("TABLE"), this=table("T"),
         actions=Lst([node("AlterSet", expressions=Lst([node("Properties", expressions=Lst([
